@@ -65,6 +65,8 @@ func sliceeq[T comparable](a, b []T) bool { return len(a) == len(b) }
 func str(b []byte) string               { return string(b) }
 func typeis[T any](v any) bool          { _, ok := v.(T); return ok }
 func psum[T any](f func(T) Z, s []T, n int) Z { return 0 }
+func isstatus(e error) bool             { return e != nil }
+func statuscode(e error) uint32         { return 0 }
 `
 
 func load(repoDir string, pkgRel []string) (*Loaded, error) {
@@ -371,6 +373,12 @@ func (g *genCtx) clauseParams(text string, scope *types.Scope, pos token.Pos, si
 	}
 	var ps []clauseParam
 	for _, name := range freeIdents(e) {
+		if name == "rangeindex" {
+			// the hidden index of a `for range` loop over a slice/array/int: -1 before the first
+			// iteration, k after k+1 iterations have started (loop clauses only)
+			ps = append(ps, clauseParam{Name: name, Type: types.Typ[types.Int], Kind: "rangeindex"})
+			continue
+		}
 		if name == "result" && sig != nil && sig.Results().Len() == 1 {
 			ps = append(ps, clauseParam{Name: name, Type: sig.Results().At(0).Type(), Kind: "result", Res: 0})
 			continue
